@@ -413,6 +413,44 @@ theorem projection_indep_of_slicing (Lmap : Nat → V →+ V) (delta : P → V) 
   rw [projected_eq_sum_atoms Lmap delta ts atoms h hne hall, projected_eq_sum_atoms Lmap delta ts' atoms h' hne' hall']
 end projection
 
+/-! ### what `_validate_slice_thickness` accepts -/
+
+/-- whatever `_validate_slice_thickness` accepts sums to the cell height within the `np.isclose` tolerance
+(`|Σ − H| ≤ 1e-8 + 1e-5·|H|`); for an explicit sequence the accepted tuple is the sequence itself -/
+theorem validate_accepts_only_close_sums (st : Rat ⊕ List Rat) (H : Rat) (v : List Rat)
+    (h : validateThickness st H = .ok v) : isClose (listSum v) H = true ∧ (∀ l, st = .inr l → v = l) := by
+  unfold validateThickness at h
+  cases st with
+  | inl d =>
+    refine ⟨?_, by intro l hl; cases hl⟩
+    simp only at h
+    split at h
+    · cases h
+    · rename_i v' hv'
+      split at h
+      · cases h; assumption
+      · cases h
+  | inr l =>
+    simp only at h
+    split at h
+    · cases h; exact ⟨by assumption, by intro l' hl'; cases hl'; rfl⟩
+    · cases h
+
+/-- a positive scalar thickness is always accepted and yields `⌈H/d⌉` equal slices summing exactly to `H` -/
+theorem validate_scalar_ok (H d : Rat) (hH : 0 < H) (hd : 0 < d) :
+    validateThickness (.inl d) H = .ok (List.replicate (sliceCount H d).toNat (sliceThk H d)) := by
+  have hn := nSlices_pos H d hH hd
+  have hsum := scalar_thickness_sum H d hH hd
+  unfold validateThickness
+  simp only [not_le.mpr hd, if_false, ne_of_gt hn, hsum]
+  have : isClose H H = true := by
+    unfold isClose
+    simp only [sub_self, lt_irrefl, if_false, decide_eq_true_eq]
+    have : (0 : Rat) ≤ (if H < 0 then -H else H) := by split <;> linarith
+    have h2 : (0 : Rat) ≤ 1 / 100000 * (if H < 0 then -H else H) := mul_nonneg (by norm_num) this
+    linarith
+  simp [this]
+
 /-! ### non-vacuity -/
 example : sliceIndex [1, 2, 1] [0, 1, 999999999999/1000000000000, 5/2, 3, 4, 7/2]
     = .ok [[0], [1, 2, 3], [4, 6]] := by decide +kernel
